@@ -13,18 +13,24 @@
 The oracle is always TLC (BEH expectation or acceptance by the trace spec)."""
 import json
 
-from lib import build, hrun, propagation, tlc
+from lib import build, propagation, tlc
 from lib.common import Broken, log
 
 LEVEL = "model_checking"
 MODULE = "TraceContextHeader"
 ALLDEVS = ["traceflags-upper-hex-inject"]
 
+FULL = {"tid": '"rand", "hi64zero", "lo64zero", "one", "max", "zero"', "sid": '"rand", "one", "max", "zero"',
+        "tsc": '"none", "one", "three", "full32"'}
+# quick tier: all 256 flag bytes, a subset of the id classes
+QUICK = {"tid": '"rand", "hi64zero", "max", "zero"', "sid": '"rand", "one", "zero"', "tsc": '"none", "one", "three", "full32"'}
+# as-implemented run: the deviation depends on the flags byte only - all 256 of them, fewer id classes
+SMALL = {"tid": '"rand", "zero"', "sid": '"rand", "zero"', "tsc": '"none", "one"'}
 CFG = """CONSTANTS
   Dev = {%(dev)s}
-  TidC = {"rand", "hi64zero", "lo64zero", "one", "max", "zero"}
-  SidC = {"rand", "one", "max", "zero"}
-  TsC = {"none", "one", "three", "full32"}
+  TidC = {%(tid)s}
+  SidC = {%(sid)s}
+  TsC = {%(tsc)s}
   NFlag = 256
   RepFlags = {1, 171}
   MaxFaults = %(k)d
@@ -75,11 +81,11 @@ def model_check(ctx):
     k, sw = _bounds(ctx)
     # the named deviations concern Inject only; the carrier mutation graph does not depend on Dev and is
     # explored in the ideal run, so the as-implemented run keeps to the unmutated carriers
-    c = _cfg(ctx, "mc-dev.cfg", CFG % {"dev": _devset(ALLDEVS), "k": 0, "sw": 0, "inv": INVS})
+    c = _cfg(ctx, "mc-dev.cfg", CFG % dict(SMALL, dev=_devset(ALLDEVS), k=0, sw=0, inv=INVS))
     r = tlc.tlc(MODULE, c, rundir=ctx.rundir.path, workers=4, timeout_s=900, tag="mc-dev")
     ctx.add_tlc("%s inject side + round trip, Dev=as-implemented" % MODULE, r)
     tlc.must_ok(r, "%s model checking (as implemented)" % MODULE)
-    c = _cfg(ctx, "mc-ideal.cfg", CFG % {"dev": "", "k": k, "sw": sw, "inv": INVS + " EmitAll"})
+    c = _cfg(ctx, "mc-ideal.cfg", CFG % dict(FULL if ctx.tier == "thorough" else QUICK, dev="", k=k, sw=sw, inv=INVS + " EmitAll"))
     r = tlc.tlc(MODULE, c, rundir=ctx.rundir.path, workers=4, timeout_s=900, coverage=True, tag="mc-ideal")
     ctx.add_tlc("%s partition, Dev=ideal, <=%d mutated dimensions (+ behaviour export)" % (MODULE, k), r)
     tlc.must_ok(r, "%s model checking (ideal)" % MODULE)
@@ -242,62 +248,19 @@ def replay_cases(ctx, exe, cases):
                     "case": cs, "result": results.get(cs["id"])})
 
 
+def _describe(ev):
+    if ev.get("e") == "I":
+        return "Inject(flags=%s, %s trace-state members) wrote traceparent=%s, extracting it gave %s" % (
+            ev.get("fl"), ev.get("nts"), json.dumps(ev.get("raw")), json.dumps({k: v for k, v in ev["x"].items() if k in ("out", "remote", "flags", "tsok")}))
+    return "Extract(traceparent=%s) gave %s" % (json.dumps(ev.get("raw")),
+                                              json.dumps({k: ev[k] for k in ("out", "remote", "flags", "tsok") if k in ev}))
+
+
 def record_validate(ctx, exe):
-    n = 60000 if ctx.tier == "thorough" else 9000
-    h = hrun.run_harness(exe, ["record", ctx.seed, n], timeout=900, env=propagation.SAN_ENV)
-    lines, crash = [], None
-    for ln in h.lines:
-        try:
-            o = json.loads(ln)
-        except ValueError:
-            continue                      # a line cut short by a crash
-        if o.get("v") == "crash":
-            crash = o
-        elif "e" in o:
-            lines.append(ln)
-    if h.rc == 9 or h.timed_out:
-        raise Broken("recorder failed: " + h.err[-1500:])
-    if h.crashed or h.rc != 0 or crash:
-        ctx.violation("the real propagator crashed / sanitizer report while recording, input %s\n%s" % (
-            json.dumps((crash or {}).get("concrete")), h.err[-1500:]),
-            {"harness": "c09_w3c", "mode": "record", "seed": ctx.seed, "n": n, "concrete": (crash or {}).get("concrete")})
-        crash = crash or {}
-    elif len(lines) != n:
-        raise Broken("recorder printed %d of %d events" % (len(lines), n))
-    known = sorted(set(ALLDEVS) & ctx.known_devs())
-    cfg = _cfg(ctx, "trace.cfg", TRACE_CFG % {"dev": _devset(known)})
-    res = propagation.validate_events(ctx, MODULE + "Trace", cfg, lines, chunk=3000, parallel=4, tag="tv")
-    kinds = res["kinds"]
-    if crash is None and any(kinds.get(k, 0) == 0 for k in ("accept", "either", "reject", "inject", "noinject")):
-        raise Broken("vacuity: recorded inputs do not cover every kind: %s" % kinds)
-    for d, at in res["devs"].items():
-        ev = json.loads(lines[at])
-        ctx.deviation(d, "recorded Inject of flags=%s wrote traceparent=%s" % (ev.get("fl"), json.dumps(ev.get("raw"))),
-                      {"monitor": MODULE + "Trace", "events": [ev], "dev": known})
-    bad = res["bad"]
-    if bad:
-        # an event the spec cannot explain with the known deviations: is it one of the named ones?
-        allcfg = _cfg(ctx, "trace-all.cfg", TRACE_CFG % {"dev": _devset(ALLDEVS)})
-        sub = [lines[i] for i in bad]
-        res2 = propagation.validate_events(ctx, MODULE + "Trace", allcfg, sub, chunk=3000, parallel=1, tag="tv2")
-        still = set(res2["bad"])
-        named = sorted(res2["devs"]) or ["?"]
-        for k, i in enumerate(bad[:MAX_REPORTS]):
-            ev = json.loads(lines[i])
-            rep = {"monitor": MODULE + "Trace", "events": [ev], "dev": known}
-            what = "recorded execution not explained by the spec: %s" % json.dumps({x: ev[x] for x in ev if x not in ("toks", "tid", "sid", "tp")})
-            if k in still or len(named) != 1:
-                ctx.violation(what, rep)
-            else:
-                ctx.deviation(named[0], what, rep)
-    ctx.evaluations += len(lines)
-    for i in range(len(lines)):
-        ctx.distinct.add(("ev", i))
-    ctx.extra["trace_validation"] = {"events": len(lines), "unexplained": len(bad), "kinds": kinds,
-                                     "deviations_used": sorted(res["devs"])}
-    if lines:
-        ev = json.loads(lines[0])
-        ctx.sample({"kind": "recorded real execution validated by %sTrace" % MODULE, "event": ev})
+    propagation.record_validate(
+        ctx, exe, harness="c09_w3c", module=MODULE + "Trace", cfg_template=TRACE_CFG, alldevs=ALLDEVS,
+        n=60000 if ctx.tier == "thorough" else 9000,
+        need_kinds=("accept", "either", "reject", "inject", "noinject"), describe=_describe, max_reports=MAX_REPORTS)
 
 
 def run(ctx):
@@ -337,12 +300,7 @@ def replay(ctx, path):
         ctx.traces += 1
         ctx.sample({"kind": "replayed case", "case": cs, "result": results.get(cs["id"])})
     elif "events" in rep:
-        lines = [json.dumps(e) for e in rep["events"]]
-        cfg = _cfg(ctx, "trace.cfg", TRACE_CFG % {"dev": _devset(sorted(set(ALLDEVS) & ctx.known_devs()))})
-        res = propagation.validate_events(ctx, MODULE + "Trace", cfg, lines, chunk=3000, parallel=1, tag="rp")
-        for i in res["bad"]:
-            ctx.violation("replayed event not explained by the spec", {"monitor": MODULE + "Trace", "events": [rep["events"][i]]})
-        ctx.sample({"kind": "replayed event", "event": rep["events"][0]})
+        propagation.replay_events(ctx, MODULE + "Trace", TRACE_CFG, ALLDEVS, rep["events"])
     else:
         raise Broken("replay file has neither a case nor events; re-run the check with the recorded seed")
     # a pure replay explores no state graph of its own beyond the trace run: keep the evidence valid
